@@ -176,7 +176,7 @@ impl<'a> WireFormat<'a> for Name<'a> {
             #[cfg(simple_dns_verif)]
             crate::dns::verif::step();
 
-            if *position >= data.len() {
+            if pointer_position >= data.len() {
                 return Err(crate::SimpleDnsError::InsufficientData);
             }
 
